@@ -64,7 +64,11 @@ def first_bytes(cls, ser, rng):
     if cls == "connect_valid":
         return valid
     if cls == "connect_unknown_object":
-        return L.connect_msg("nonexistent-object", "hello", ser, seq=seq)
+        # no object is registered under any of these: a plain unknown name, near misses of a registered one, and values that are
+        # falsy or not even text
+        oid = rng.choice(["nonexistent-object", "", None, 0, False, [], "Target", "target ", "target\x00", " target", 5, ["target"],
+                          {"object": "target"}, "Pyro.daemon", "nonexistent-object"])
+        return L.connect_msg(oid, "hello", ser, seq=seq)
     if cls == "connect_bad_payload":
         variants = [s.dumps(["not", "a", "dict"]), s.dumps({"object": "target"}), s.dumps("hello"), b"\xff\xfe\x00garbage-payload",
                     s.dumps({"handshake": "hello"})]
